@@ -128,19 +128,24 @@ def _draw_pairs(log):
     out = []
     u = None
     lam = None
+    n_prim = 0
     for e in log:
         if e["k"] == "dec" and e.get("in_draw"):
             u = e.get("u")
+            n_prim += 1
         elif e["k"] == "poisson_lam":
             lam = e["lam"]
         elif e["k"] == "draw":
             if not e.get("forced"):
-                out.append((u, lam, e))
+                # a draw that used several primitives (retry / rejection / fallback sampler) is not a function of one quantile
+                out.append((u if n_prim <= 1 else "multi", lam, e))
             u = None
             lam = None
+            n_prim = 0
         elif e["k"] == "draw_fail":
             u = None
             lam = None
+            n_prim = 0
     return out
 
 
@@ -173,6 +178,8 @@ def _exec_perdraw(spec):
                           "input": text})
             break
         d = stochs[i].dist
+        if u == "multi":
+            continue
         if u is None:
             # zero-width law needs no randomness
             rd = refdist.from_params(d.family, d.params)
@@ -203,6 +210,8 @@ def _exec_perdraw(spec):
     if out.exc is not None:
         stats["exception:" + type(out.exc).__name__] = 1
     sample = {"kind": "perdraw", "input": text, "draws": [[u, ev["text"], ev["v"]] for (u, lam, ev) in pairs[:3]]}
+    if any(u == "multi" for (u, lam, ev) in pairs):
+        stats["multi_primitive_draws"] = sum(1 for (u, lam, ev) in pairs if u == "multi")
     return {"violations": viols, "stats": stats, "sig": sig, "nontrivial": compared >= 2, "sample": sample,
             "digest": out.world.digest() if out.world else None, "trace": list(out.sched.trace)}
 
